@@ -137,6 +137,9 @@ type Violation struct {
 	// a normalised detail (numbers and ids stripped by the property).
 	Sig  string `json:"sig"`
 	Step int    `json:"step"`
+	// Attrs are facts about the history of the run recorded by the harness (used to
+	// identify known findings by the history that triggers them).
+	Attrs []string `json:"attrs,omitempty"`
 }
 
 func (v *Violation) Error() string {
